@@ -213,3 +213,8 @@ Definition cached (w : world) (m : nat) (k : key) : option I :=
   match hfind m (w_heap w) with Some lm => tfind k (lm_table lm) | None => None end.
 
 End Memo.
+
+Arguments OutMemo {E R} m.
+Arguments OutDrop {E R}.
+Arguments OutRes {E R} r.
+Arguments OutDead {E R}.
